@@ -123,3 +123,20 @@ pub fn float_facts(s: &[u8]) -> Option<FloatFacts> {
         zero,
     })
 }
+
+/// M9: `core::str::count::count_chars` (the engine of `str::chars().count()`) as a plain loop
+/// counting the bytes that are not UTF-8 continuation bytes.  std's version switches to a
+/// word-at-a-time algorithm over `align_to::<usize>()` for strings of 32 bytes and more; with a
+/// symbolic length CBMC has to encode that branch too, which alone exceeds 16 GB.
+pub fn count_chars(s: &str) -> usize {
+    let b = s.as_bytes();
+    let mut n = 0;
+    let mut i = 0;
+    while i < b.len() {
+        if (b[i] as i8) >= -0x40 {
+            n += 1;
+        }
+        i += 1;
+    }
+    n
+}
